@@ -891,13 +891,42 @@ def native_fault(rp, who, where, nth, panic, watchdog_ms=10000):
     return {'cmd': 'threads %d %d %d %d' % (site, nth, 1 if panic else 2, watchdog_ms), 'out': out, 'hung': hung, 'returned_ms': int(m.group(1)) if m else None, 'ok': out.startswith('ok')}
 
 
+STANDING = (('poller', 'loop', 1, True), ('writer', 'loop', 1, False), ('writer', 'start', 1, True), ('poller', 'start', 1, False))
+
+
+def native_only(ck, why, tier):
+    """the step relations could not be extracted (code outside the encodable fragment): the real thread_manager::run is still run with
+    each standing fault; a hang is a violation, no hang leaves the check inconclusive (never green)"""
+    rp = common.Replay('debug')
+    runs = []
+    for who, where, nth, panic in STANDING + ((('poller', 'loop', 2, False), ('writer', 'loop', 2, True)) if tier == 'thorough' else ()):
+        for attempt in range(2):
+            nat = native_fault(rp, who, where, nth, panic, 10000)
+            runs.append(nat)
+            if nat['hung']:
+                break
+        if nat['hung']:
+            ck.violation('daemon-lingers', 'the %s thread %s (%s, visit %d): the real thread_manager::run had not returned 10000 ms later - the daemon lingers with part of its pipeline dead (the step relations of this tree are outside the encodable fragment: %s)'
+                         % (who, 'panics' if panic else 'returns', 'at start-up' if where == 'start' else 'at the top of its loop', nth, why[:160]), {'cmd': nat['cmd'], 'native': nat['out']})
+            break
+    rp.close()
+    ck.cov['native_runs'] = [{'cmd': n['cmd'], 'returned_ms': n['returned_ms'], 'hung': n['hung']} for n in runs]
+    ck.cov['traces_validated_against_impl'] = len(runs)
+    ck.inconclusive.append('step relations not extracted: ' + why[:300])
+    return ck.finish()
+
+
 def run_check(tier, seed):
     ck = Check('C15', tier, seed)
     prog, mir_wall = load_dlib_program()
     M = Models(prog)
     stats = {'queries': 0, 'solver_s': 0.0}
     t0 = time.time()
-    tabs, main_outs, main_on, main_detail, P, Pn, W, Wn, _x = extract_all(M, stats)
+    try:
+        tabs, main_outs, main_on, main_detail, P, Pn, W, Wn, _x = extract_all(M, stats)
+        entry_facts(M)
+    except EngineError as e:
+        return native_only(ck, str(e), tier)
     extract_s = time.time() - t0
     pr = Prover(seed)
     T = z3.BoolVal(True)
@@ -998,7 +1027,7 @@ def run_check(tier, seed):
             ck.inconclusive.append('the composition has a counterexample (%s %s at step %d) that did not reproduce natively: %s' % (who, 'panics' if panic else 'returns', info['fault_step'], [n['out'][:80] for n in native_runs]))
     # ---- standing native runs (also when the model is green): real threads, real channels, real unwinding
     if not ck.violations:
-        for who, where, nth, panic in (('poller', 'loop', 1, True), ('writer', 'loop', 1, False), ('writer', 'start', 1, True)) + ((('poller', 'loop', 2, False), ('poller', 'start', 1, False), ('writer', 'loop', 2, True)) if tier == 'thorough' else ()):
+        for who, where, nth, panic in STANDING + ((('poller', 'loop', 2, False), ('writer', 'loop', 2, True)) if tier == 'thorough' else ()):
             nat = native_fault(rp, who, where, nth, panic, DEADLINE_MS)
             native_runs.append(nat)
             if nat['hung']:
@@ -1076,6 +1105,17 @@ def drift_chain(prog):
     b = caught.get('updater_new')
     v2 = b[1] if b and len(b) > 1 and isinstance(b[1], z3.ExprRef) else None
     links.append(('shm_writer::run passes its rate to ShmUpdater::new', z3.substitute(v2, (rate, param)) if v2 is not None else None))
+    # ShmUpdater::new keeps the rate and the first record it publishes carries it (C08 proves the same field for every later record)
+    try:
+        from .daemon_updater import UpdaterModel, rec_fields
+        um = UpdaterModel(prog)
+        st = State(); st.mem[(0, 'u')] = um.fresh_updater(rate)
+        outs = [o for o in um.step_missing(st, z3.BoolVal(False)) if o.kind == 'return']
+        pubs = [e for o in outs for e in o.state.trace if e.kind == 'publish']
+        v3 = rec_fields(pubs[-1].ret)[5] if len(outs) == 1 and pubs else None
+        links.append(('ShmUpdater::new keeps the rate it is given: the first record published carries it', z3.substitute(v3, (rate, param)) if isinstance(v3, z3.ExprRef) else None))
+    except EngineError:
+        links.append(('ShmUpdater::new keeps the rate it is given: the first record published carries it', None))
     return param, links
 
 
